@@ -233,6 +233,17 @@ func runC11(r *Report, tier string) {
 		}
 		o4.check(has && ks, "calls "+shortFn(callee)+" which holds a key site", "SignMessage."+name+" does not call Signature."+name+" or that method has no key site")
 	}
+	checkSignMessageEncoderElems(r, "R11.3")
+	// decoder
+	checkSignMessageDecoderElems(r, "R11.3")
+}
+
+// checkSignMessageEncoderElems: the COSE_Sign encoder succeeds only with a
+// non-empty list every element of which passed the Signature encoder, which
+// itself refuses nil and unsigned elements (R11.3, shared with R20.3).
+func checkSignMessageEncoderElems(r *Report, rule string) {
+	P := r.P
+	sm := P.mustNamed("SignMessage")
 	// R11.3 encoder
 	enc := P.methodOf(sm, "MarshalCBOR")
 	dec := P.methodOf(sm, "UnmarshalCBOR")
@@ -244,7 +255,7 @@ func runC11(r *Report, tier string) {
 		if x.kind == exitFailure {
 			continue
 		}
-		o := r.ob("R11.3", shortFn(enc)+":exit:"+exitID(P, enc, x), enc, x.ret, "encoder: signatures non-empty and every element encoded by the Signature encoder")
+		o := r.ob(rule, shortFn(enc)+":exit:"+exitID(P, enc, x), enc, x.ret, "encoder: signatures non-empty and every element encoded by the Signature encoder")
 		c1 := x.facts.holdsNonEmpty(sigs)
 		why := perElementLoopOK(P, enc, x, sigs, P.methodOf(P.mustNamed("Signature"), "MarshalCBOR"))
 		o.check(c1 && why == "", "len(Signatures)!=0 and per-element ok(Signature.MarshalCBOR)", fmt.Sprintf("signatures non-empty:%v; %s", c1, why))
@@ -255,12 +266,10 @@ func runC11(r *Report, tier string) {
 		if x.kind == exitFailure {
 			continue
 		}
-		o := r.ob("R11.3", shortFn(selem)+":exit:"+exitID(P, selem, x), selem, x.ret, "Signature encoder: receiver non-nil, signature non-empty")
+		o := r.ob(rule, shortFn(selem)+":exit:"+exitID(P, selem, x), selem, x.ret, "Signature encoder: receiver non-nil, signature non-empty")
 		sg := &Term{Op: "load", Args: []*Term{{Op: "field", S: "Signature", Args: []*Term{T("param", "0")}}}}
 		o.check(x.facts.holdsNonNil(T("param", "0")) && x.facts.holdsNonEmpty(sg), "facts recv!=nil, len(Signature)!=0", "an exit of the Signature encoder lacks the nil/empty-signature refusal")
 	}
-	// decoder
-	checkSignMessageDecoderElems(r, "R11.3")
 }
 
 // checkSignMessageDecoderElems: the COSE_Sign decoder refuses an empty
